@@ -89,19 +89,19 @@ pub fn spec(id: &str) -> Option<PropSpec> {
             vec!["cur-blst", "ref (draft tags)"],
         )),
         "C04" => Some(base(
-            vec![cs(&IDENT, "family", 24, 240, false), cs(&IDENT, "agg-positions", 60, 63 * 6 * 3, false)],
+            vec![cs(&IDENT, "family", 120, 1200, false), cs(&IDENT, "agg-positions", 240, 63 * 6 * 3 * 2, false)],
             "cases = (entry point, which point-/scalar-typed argument is the identity / zero, with which companion values that make the pairing equation hold trivially, scheme, group) — about 90 cases per (scheme, group), enumerated completely in every `family` run (runs differ in message and key); \
              `agg-positions` inserts an identity-key pair into a valid aggregate list at first / middle / last / random positions with its own, a neighbour's or another signer's message for n in 2..=64; all cases non-trivial",
             vec!["cur-blst"],
         )),
         "C05" => Some(base(
-            vec![cs(&SIGN, "relabel", 400, 6000, false), cs(&SIGN, "tags", 1, 1, true)],
+            vec![cs(&SIGN, "relabel", 800, 9000, false), cs(&SIGN, "tags", 1, 1, true)],
             "cases = (group, ordered pair of distinct schemes, artefact type {Signature, MultiSignature, AggregateSignature, SignatureShare, SignCryptCiphertext, TimeCryptCiphertext, ProofOfKnowledge, ProofCommitment, ProofOfKnowledgeTimestamp}) plus PoP-vs-signature confusions; \
              class `tags` enumerates the ten tag constants the library exposes (pairwise distinct; eight equal to the draft strings); every relabelled case is non-trivial",
             vec!["cur-blst", "ref (draft strings, tag comparison only)"],
         )),
         "C09" => Some(base(
-            vec![cs(&SIGN, "registry", 500, 10000, false)],
+            vec![cs(&SIGN, "registry", 1000, 15000, false)],
             "cases = (group, key class of registrant, untouched/corrupted in flight, decision) + all ordered pairs of distinct registrants (cross-registration) + perturbed proofs {-pi, pi+G, k*pi, identity, off-subgroup, bit flips}; non-trivial = any case other than an untouched own registration",
             vec!["cur-blst"],
         )),
@@ -109,12 +109,12 @@ pub fn spec(id: &str) -> Option<PropSpec> {
             needs_clock: true,
             ..base(
                 vec![
-                    cs(&POK, "interactive", 120, 3000, false),
-                    cs(&POK, "interactive-tamper", 400, 8000, false),
-                    cs(&POK, "ts-clock", 1200, 40000, false),
-                    cs(&POK, "ts-future", 200, 4000, false),
-                    cs(&POK, "ts-tamper", 700, 16000, false),
-                    cs(&POK, "ts-replay", 300, 8000, false),
+                    cs(&POK, "interactive", 480, 6000, false),
+                    cs(&POK, "interactive-tamper", 1600, 16000, false),
+                    cs(&POK, "ts-clock", 5400, 80000, false),
+                    cs(&POK, "ts-future", 800, 8000, false),
+                    cs(&POK, "ts-tamper", 2800, 32000, false),
+                    cs(&POK, "ts-replay", 1200, 16000, false),
                 ],
                 "cases = (variant, group, scheme, timeout class, elapsed-time class relative to the timeout at ns granularity {negative, inside, don't-care millisecond, after}, \
                  relay perturbation kind, delivery number); non-trivial = any tampered component, or an elapsed time outside the plain accept region; distinct by hash of the tuple",
@@ -128,28 +128,28 @@ pub fn spec(id: &str) -> Option<PropSpec> {
             vec!["cur-blst"],
         )),
         "C12" => Some(base(
-            vec![cs(&CRYPT, "td-subsets", 60, 60, true), cs(&CRYPT, "td-protocol", 500, 10000, false)],
+            vec![cs(&CRYPT, "td-subsets", 60, 60, true), cs(&CRYPT, "td-protocol", 1500, 20000, false)],
             "cases = (group, ciphertext scheme, t, n, share subset and order | arrival history under loss/duplication/reordering) and every (share, key share, ciphertext) mismatch; class `td-subsets` enumerates 2<=t<=n<=5 x 3 schemes x 2 groups with every subset; non-trivial = proper subsets, mismatches",
             vec!["cur-blst"],
         )),
         "C13" => Some(base(
-            vec![cs(&CRYPT, "tl-beacon", 500, 10000, false), cs(&CRYPT, "tl-tamper", 1200, 24000, false), cs(&CRYPT, "tl-bitflip-all", 6, 36, false)],
+            vec![cs(&CRYPT, "tl-beacon", 1000, 15000, false), cs(&CRYPT, "tl-tamper", 2400, 36000, false), cs(&CRYPT, "tl-bitflip-all", 12, 54, false)],
             "cases = (group, scheme, beacon kind {whole key, t-of-n recombined over a lossy/duplicating transport}, message length, identifier kind, fault-script length | perturbation kind distinguishing header, authenticated prefix of w and padding | every single bit in `tl-bitflip-all`); non-trivial = recombined beacons, runs with faults, all altered ciphertexts",
             vec!["cur-blst"],
         )),
         "C14" => Some(base(
-            vec![cs(&CRYPT, "eg-tally", 500, 10000, false), cs(&CRYPT, "eg-proof-tamper", 800, 16000, false)],
+            vec![cs(&CRYPT, "eg-tally", 1500, 20000, false), cs(&CRYPT, "eg-proof-tamper", 2400, 32000, false)],
             "cases = (group, number of voters, which ballots arrived in which order under loss/duplication/delay, fault-script length) with conservation oracle, threshold share subset; proof perturbation kind over (c1, c2, message_proof, blinder_proof, challenge, pk); non-trivial = sums of >1 ciphertext, runs with faults, all altered proofs",
             vec!["cur-blst"],
         )),
         "C15" => Some(base(
-            vec![cs(&CODEC, "vault", 48, 600, false)],
+            vec![cs(&CODEC, "vault", 96, 900, false)],
             "cases = (group, data type (all 28), codec {bytes via &[u8] / Vec<u8> / &Vec<u8> / Box<[u8]>, serde_bare, serde_json, big- and little-endian for scalar types and the curve-tagged key wrapper}, specimen kind {generated, identity point, scalar 1 / r-1, each scheme variant, timestamps 0 / 2^63 / u64::MAX, share identifiers incl. 1 and 255, payload 0 B .. 64 KiB}); \
              every specimen is written to a vault's disk, survives a crash/restart, is reloaded, compared (bytes and PartialEq) and forwarded to a second vault in another codec; the type x group x scheme x codec table is enumerated in every run, values within a cell are seeded; non-trivial = edge specimens",
             vec!["cur-blst"],
         )),
         "C16" => Some(base(
-            vec![cs(&CODEC, "byz-encoder", 16, 200, false), cs(&CODEC, "random-bytes", 60, 4000, false)],
+            vec![cs(&CODEC, "byz-encoder", 32, 300, false), cs(&CODEC, "random-bytes", 300, 6000, false)],
             "cases = (group, data type, codec {bytes, bare, json}, point position, malformation {on-curve point outside the subgroup, x with no curve point, compression flag cleared, infinity flag with coordinates, infinity with sign, x >= p}) + every strict prefix of every encoding (torn/short write) + other lengths for exact-length types + zero / r / 2r for byte-imported scalars + invalid payloads in share containers at every use site + corrupted/random byte strings whose accepted outputs are re-checked point by point; all cases non-trivial",
             vec!["cur-blst", "ref (point classification only)"],
         )),
@@ -255,7 +255,7 @@ pub fn spec(id: &str) -> Option<PropSpec> {
             needs_entropy: true,
             needs_clock: true,
             ..base(
-                vec![cs(&ENTROPY, "history", 96, 96, false), cs(&ENTROPY, "processes", 24, 48, false)],
+                vec![cs(&ENTROPY, "history", 288, 288, false), cs(&ENTROPY, "processes", 24, 48, false)],
                 "cases = (randomized entry point, group, mode in {one call sequence, 8 caller threads, 4 process incarnations, two device seeds, two child processes seam on/off}); \
                  N identical-argument calls per case (quick 256, thorough 4096) at a frozen simulated clock; every exposed ephemeral (u, masks, c1, recomputed r1, commitment, secret, key, challenge, share values) must be pairwise distinct; all cases are non-trivial",
                 vec!["cur-blst"],
